@@ -1133,6 +1133,12 @@ class CallsMixin:
             return SymStr(f(e), kind)
         if name == "startswith":
             return mk_bool(z3.PrefixOf(str_to_z3(args[0]), e))
+        if name == "removeprefix" and len(args) == 1:
+            pfx = str_to_z3(args[0])
+            return mk_str(z3.If(z3.PrefixOf(pfx, e), z3.SubString(e, z3.Length(pfx), z3.Length(e) - z3.Length(pfx)), e), kind)
+        if name == "removesuffix" and len(args) == 1:
+            sfx = str_to_z3(args[0])
+            return mk_str(z3.If(z3.SuffixOf(sfx, e), z3.SubString(e, 0, z3.Length(e) - z3.Length(sfx)), e), kind)
         if name == "endswith":
             return mk_bool(z3.SuffixOf(str_to_z3(args[0]), e))
         if name == "partition":
